@@ -419,6 +419,21 @@ func runC14rest(r *R) {
 		r.Check(n > 0, "C14-R6", fn, "dontupdate[uuid] = {}", fn.Pos(), "local update is recorded", "updateWithResp no longer records the uuid in dontupdate")
 	}
 
+	// ---- R8
+	r.Rule("C14-R8", "Pool.getInstancesAndSync: the 'updated after' threshold given to sync() is time.Now() taken before the instance listing is requested (a worker created while the listing was in flight is not mistaken for a vanished instance)", 1)
+	if fn := r.NeedFn("C14-R8", "(*"+wk+".Pool).getInstancesAndSync"); fn != nil {
+		var list ssa.Instruction
+		for _, c := range CallsMatching(fn, func(n string, c *ssa.CallCommon) bool { return bareName(n) == "Instances" }) {
+			list = c.(ssa.Instruction)
+		}
+		for _, c := range CallsIn(fn, "(*"+wk+".Pool).sync") {
+			th := CallArgs(c.Common())[0]
+			tn, ok := Resolve1(th).(*ssa.Call)
+			okv := ok && CalleeName(tn.Common()) == "time.Now" && list != nil && Before(tn, list)
+			r.Check(okv, "C14-R8", fn, "sync(threshold, instances)", c.Pos(), "threshold precedes the listing request", "threshold is taken after the listing returned: an instance created (and given a container) while a slow listing was in flight is dropped as 'disappeared', its process forgotten, and the container started a second time")
+		}
+	}
+
 	// ---- R7
 	r.Rule("C14-R7", "a probe sampled before a container's process existed is discarded: startContainer's goroutine refreshes worker.updated after rr.Start() returns; probeAndUpdate calls updateRunning only if worker.updated is unchanged since before the probe", 2)
 	if fn := r.NeedFn("C14-R7", "(*"+wk+".worker).startContainer"); fn != nil {
